@@ -375,8 +375,8 @@ def check_orders(case):
 
 
 def run(ctx):
-    ctx.run_machine(ReadOnlyHistory, check_history, max_examples=120 if ctx.quick else 900, step_count=12, label='read-only')
-    ctx.run_hypothesis(order_cases(), check_orders, max_examples=12 if ctx.quick else 60, salt=5, label='orders')
+    ctx.run_machine(ReadOnlyHistory, check_history, max_examples=100 if ctx.quick else 900, step_count=12, label='read-only')
+    ctx.run_hypothesis(order_cases(), check_orders, max_examples=8 if ctx.quick else 60, salt=5, label='orders')
 
 
 def replay(case):
